@@ -83,6 +83,7 @@ def main(argv=None):
     ap.add_argument('pid'); ap.add_argument('--tier', default=os.environ.get('VERIF_TIER', 'quick'))
     ap.add_argument('--only', default=None); ap.add_argument('--jobs', type=int, default=min(16, os.cpu_count() or 4))
     ap.add_argument('--no-native', action='store_true'); ap.add_argument('-v', action='store_true')
+    ap.add_argument('--write-expected', action='store_true', help='record the obligation ids generated on this (unchanged) tree')
     args = ap.parse_args(argv)
     pid, tier = args.pid, args.tier
     seed = int(os.environ.get('VERIF_SEED', '0'))
@@ -99,6 +100,7 @@ def run(pid, tier, seed, args, t0):
     mod = importlib.import_module('contracts.%s.world' % pid)
     w = mod.build()
     outdir = os.path.join(ROOT, 'out', pid); os.makedirs(os.path.join(outdir, 'replay'), exist_ok=True)
+    for f in os.listdir(os.path.join(outdir, 'replay')): os.unlink(os.path.join(outdir, 'replay', f))
     targets = [c for c in w.contracts.values() if not c.trusted]
     if args.only: targets = [c for c in targets if args.only in c.key]
     jobs = [(pid, c.key, tier) for c in targets]
@@ -218,6 +220,8 @@ def run(pid, tier, seed, args, t0):
     for o in unknown: print('UNDECIDED property=%s obligation=%s (solver unknown)' % (pid, o['id']))
     # vacuity guard: obligation count must not drop below the committed expectation
     exp_p = os.path.join(ROOT, 'contracts', pid, 'EXPECTED.json')
+    if args.write_expected and not violations and not undecided and not unknown and not crashed:
+        json.dump(dict(obligation_ids=sorted(o['id'] for o in obls)), open(exp_p, 'w'), indent=0)
     if os.path.exists(exp_p) and not args.only:
         exp = json.load(open(exp_p))
         missing = [i for i in exp['obligation_ids'] if i not in {o['id'] for o in obls}]
